@@ -78,6 +78,10 @@ EXPLANATION += (
     " Round 9: an array allocated with another array's element type is used as the same kind of sparse-matrix member (R-DTYPE/borrowed-type)."
 )
 
+EXPLANATION += (
+    ' Round 12: single elements and the length of a request the function sorts are order-free summaries (R-PERM/request-order).'
+)
+
 RULE_TEXT = (
     "one obligation per (dispatcher, encoding member), per arm-"
     "distinctness relation, per cursor relation, per range step / slice "
